@@ -273,11 +273,12 @@ func (q *recQueue) Clear() error       { q.check("Clear"); return q.inner.Clear(
 // faultQueue fails the next Push when armed (a transient failure of a persistent queue), or -- in free-running
 // mode -- every n-th Push.
 type faultQueue struct {
-	inner    quartz.JobQueue
-	failNext atomic.Bool
-	every    int64
-	pushes   atomic.Int64
-	failed   atomic.Int64
+	inner      quartz.JobQueue
+	failNext   atomic.Bool
+	failRemove atomic.Bool // the next Remove fails
+	every      int64
+	pushes     atomic.Int64
+	failed     atomic.Int64
 }
 
 var errTransient = errors.New("transient queue failure")
@@ -290,10 +291,16 @@ func (q *faultQueue) Push(j quartz.ScheduledJob) error {
 	}
 	return q.inner.Push(j)
 }
-func (q *faultQueue) Pop() (quartz.ScheduledJob, error)                    { return q.inner.Pop() }
-func (q *faultQueue) Head() (quartz.ScheduledJob, error)                   { return q.inner.Head() }
-func (q *faultQueue) Get(k *quartz.JobKey) (quartz.ScheduledJob, error)    { return q.inner.Get(k) }
-func (q *faultQueue) Remove(k *quartz.JobKey) (quartz.ScheduledJob, error) { return q.inner.Remove(k) }
+func (q *faultQueue) Pop() (quartz.ScheduledJob, error)                 { return q.inner.Pop() }
+func (q *faultQueue) Head() (quartz.ScheduledJob, error)                { return q.inner.Head() }
+func (q *faultQueue) Get(k *quartz.JobKey) (quartz.ScheduledJob, error) { return q.inner.Get(k) }
+func (q *faultQueue) Remove(k *quartz.JobKey) (quartz.ScheduledJob, error) {
+	if q.failRemove.CompareAndSwap(true, false) {
+		q.failed.Add(1)
+		return nil, errTransient
+	}
+	return q.inner.Remove(k)
+}
 func (q *faultQueue) ScheduledJobs(m []quartz.Matcher[quartz.ScheduledJob]) ([]quartz.ScheduledJob, error) {
 	return q.inner.ScheduledJobs(m)
 }
@@ -352,6 +359,8 @@ func errClass(err error) string {
 	switch {
 	case err == nil:
 		return "ok"
+	case errors.Is(err, errTransient):
+		return "EQF" // the injected queue failure came back to the caller
 	case errors.Is(err, quartz.ErrIllegalArgument):
 		return "EIA"
 	case errors.Is(err, quartz.ErrJobAlreadyExists):
